@@ -249,4 +249,23 @@ PROPS = {
         "assumptions": ["runtime.CallersFrames is the reference for 'the d-th caller' (inlined functions count as frames)"],
         "parts": [plain("grid", "TestGrid"), rapid("call-paths", "TestProp", 16000, 320000)],
     },
+    "C17": {
+        "pkg": "c17",
+        "level": "exploration",
+        "level_text": "Exhaustive enumeration of configurations plus generated histories: a logical leaf type and a logical wrapper type exist under the names foo "
+                      "(v1), bar (v2), qux (vB, concurrent rename), baz (v3: chain of two renames) and zed (v4: chain of three renames) and are unknown at v0; "
+                      "every permutation of each version's registration list is its own code version (12 versions), each a registry image built through the "
+                      "library's public registration API and installed through the build-tag hook. All assignments of versions to sender / second sender / receiver "
+                      "and to sender / intermediary / receiver are enumerated; rapid draws longer histories (two errors from drawn senders, up to 6 hops through "
+                      "drawn processes). At every process: wire family name = the original name, decoded Go type = the receiver's own name (opaque at v0, text "
+                      "kept), Is recognises an equal local instance and rejects another message, the two errors are Is-equal in both directions (scenario 5). "
+                      "All registration orders must give identical bytes; registering a target twice must panic.",
+        "level_note": "Code versions are registry images inside one test binary (the Go types of all names are linked into it; a version 'knows' a name iff its "
+                      "image has the decoder / migration).",
+        "technique": "exhaustive configuration enumeration + property-based history generation (rapid) over registry images; invariants checked at every process of the history",
+        "rule": "exhaustive: 11 senders x 11 second senders x 12 receivers, and 11 senders x 12 intermediaries x 12 receivers; histories: rapid draws two senders and "
+                "1-6 hop steps (hop A, hop B, hop both) through drawn versions. Non-trivial = history of at least 3 steps. Distinct = hash of the history.",
+        "assumptions": ["a registry image faithfully stands for a code version"],
+        "parts": [plain("exhaustive", "TestExhaustive"), rapid("histories", "TestProp", 8000, 160000)],
+    },
 }
